@@ -472,11 +472,15 @@ func (s *SSEServer) handleSSE(w http.ResponseWriter, r *http.Request) {
 	// Clean up resources.
 	closeSessionDone(s.logger, session)
 	// Wait for a writer goroutine that is inside a write and keep later writes away: the
-	// response writer must not be used once this handler has returned. That writer may be
-	// stuck (the peer stopped reading): expire its write, so that the wait does not depend on
-	// the peer.
-	_ = http.NewResponseController(w).SetWriteDeadline(time.Now())
-	session.writeMu.Lock()
+	// response writer must not be used once this handler has returned. A writer that is in the
+	// way may be stuck (the peer stopped reading): expire its write, so that the wait does not
+	// depend on the peer, and lift the deadline again so that the response can end in order.
+	if !session.writeMu.TryLock() {
+		rc := http.NewResponseController(w)
+		_ = rc.SetWriteDeadline(time.Now())
+		session.writeMu.Lock()
+		_ = rc.SetWriteDeadline(time.Time{})
+	}
 	session.streamClosed = true
 	session.writeMu.Unlock()
 	s.sessions.Delete(sessionID)
